@@ -591,3 +591,9 @@ M("m105", "C08", "R8.1", VI, "        for _ in range(max_iterations):\n         
   "loop bound treats max_iterations as a cap on the total counter (from seeded change C08)")
 B("b38", ["C08", "C09", "C12", "C01"], RVI, "        for _ in range(max_iterations):", "        for _ in range(0, max_iterations):", "range spelled with an explicit start")
 B("b39", ["C09", "C10"], RVI, "        self.gain = solver_state.info.gain\n", "        self.gain = float(solver_state.info.gain)\n        logger.debug(\"state restored\")\n", "restore through a transparent wrapper plus a log line")
+M("m106", "C14", "R14.1", HENDRIX,
+  "        maxs = np.hstack(\n            [\n                np.full(\n                    self.max_useful_life,\n                    self.max_order_quantity_a,\n                ),\n                np.full(\n                    self.max_useful_life,\n                    self.max_order_quantity_b,\n                ),\n            ]\n        )\n        state_space, self._state_to_index_fn = create_range_space(mins, maxs)",
+  "        maxs = np.tile(\n            [self.max_order_quantity_a, self.max_order_quantity_b], self.max_useful_life\n        )\n        state_space, self._state_to_index_fn = create_range_space(mins, maxs)",
+  "Hendrix: state bounds interleaved [a,b,a,b] instead of blocked [a,a,b,b] (from seeded change C14; decided by instantiating the useful life)")
+M("m107", "C03", "R3.3", BATCH, "        self.n_pad = total_size - n_states\n", "        self.n_pad = -n_states % self.batch_size\n",
+  "padding computed modulo the batch size only (whole padding batches on the last device are not stripped) - from seeded change C03")
